@@ -471,6 +471,13 @@ Fixpoint lg_fparse (lit : text) (s : text) (next : nat) {struct s} : option (lis
       | d :: r' =>
         if N.eqb d 123 then lg_fparse (123%N :: lit) r' next
         else if N.eqb d 125 then option_map (fun ps => flush (PFld next CNone None :: ps)) (lg_fparse [] r' (S next))
+        else if N.eqb d 58 then                      (* {:} : the empty format spec *)
+          match r' with
+          | e :: r'' => if N.eqb e 125
+                        then option_map (fun ps => flush (PFld next CNone None :: ps)) (lg_fparse [] r'' (S next))
+                        else None
+          | [] => None
+          end
         else if N.eqb d 33 then
           match r' with
           | k :: e :: r'' =>
@@ -479,6 +486,14 @@ Fixpoint lg_fparse (lit : text) (s : text) (next : nat) {struct s} : option (lis
             match cv with
             | Some cv' => if N.eqb e 125
                           then option_map (fun ps => flush (PFld next cv' None :: ps)) (lg_fparse [] r'' (S next))
+                          else if N.eqb e 58 then
+                            match r'' with
+                            | e2 :: r3 => if N.eqb e2 125
+                                          then option_map (fun ps => flush (PFld next cv' None :: ps))
+                                                          (lg_fparse [] r3 (S next))
+                                          else None
+                            | [] => None
+                            end
                           else None
             | None => None
             end
